@@ -84,7 +84,7 @@ bool CanPayloadBase::Header::getCrcSupport() const
 
 void CanPayloadBase::Header::setCrcSupport(const bool support)
 {
-    crc = support ? crc | crcSupportMask : id & ~crcSupportMask;
+    crc = support ? crc | crcSupportMask : crc & ~crcSupportMask;
 }
 
 uint32_t CanPayloadBase::Header::getCrcSbc() const
@@ -116,7 +116,7 @@ bool CanPayloadBase::Header::getSbcParity() const
 
 void CanPayloadBase::Header::setSbcParity(const bool parity)
 {
-    crc = parity ? crc | crcSbcParityMask : id & ~crcSbcParityMask;
+    crc = parity ? crc | crcSbcParityMask : crc & ~crcSbcParityMask;
 }
 
 bool CanPayloadBase::Header::getSbcSupport() const
@@ -126,7 +126,7 @@ bool CanPayloadBase::Header::getSbcSupport() const
 
 void CanPayloadBase::Header::setSbcSupport(const bool support)
 {
-    crc = support ? crc | crcSbcSupportMask : id & ~crcSbcSupportMask;
+    crc = support ? crc | crcSbcSupportMask : crc & ~crcSbcSupportMask;
 }
 
 uint16_t CanPayloadBase::Header::getErrorPosition() const
